@@ -63,6 +63,9 @@ func c13(c *Ctx) {
 	}
 	ckp.A3(r, c13PMT(c))
 	ckp.A3(r, c13SpecPairs(c))
+	// the lengths the PAT/PMT writers announce (section_length, program_info_length, ES_info_length, descriptor_length)
+	// equal the bytes they emit: rule A2 level by level, including narrow-arithmetic wrap-around (shared with C09)
+	c09Lengths(c)
 	// which table ids are parsed, have a syntax header / CRC, are delivered (truth tables over all 256 ids)
 	before := len(r.Obls)
 	tables.T1(c.P, r)
